@@ -372,6 +372,12 @@ impl Run<'_> {
                                 if why.starts_with("end-of-data") {
                                     carve_out = true;
                                 }
+                                if let Ok(pat) = std::env::var("VF_C04_TRACE_NORMALISED") {
+                                    let l = format!("{}:{}:{}", e.name, d.path, why);
+                                    if l.contains(&pat) {
+                                        eprintln!("TRACE {} origin={} mutation={} written={} read={} value={}", l, origin, mutation, d.written, d.read, trunc_json(j, 3000));
+                                    }
+                                }
                                 ctx.count(&format!("normalised:{}", why), 1);
                                 ctx.label("normalisations", &format!("{}:{}:{}:{}", e.name, d.path, d.kind.as_str(), why));
                             }
